@@ -47,7 +47,7 @@ static long diff(const mjModel* m, const mjData* a, const mjData* b, int inst, c
 #define MJ_D(n) a->n
 #define X(type, name, nr, nc)                                                        \
   {                                                                                  \
-    long n = (long)(nr) * (long)(nc);                                                \
+    long n = (long)(m->nr) * (long)(nc);                                             \
     const type* pa = a->name;                                                        \
     const type* pb = b->name;                                                        \
     if (pa && pb) {                                                                  \
